@@ -223,14 +223,37 @@ def layerKeys (stackValue : Nat) : List String :=
   else if stackValue = LS_Frag then ["ipv6eh_fragment"]
   else []
 
+/-- the per-packet keys of a layer: the ethertype (decimal and 4-digit hex) or the IP protocol number that selected
+    it, read from the header in front of it (RFC layouts: the last two bytes of an Ethernet / 802.1Q header, the
+    protocol type of GRE, the version nibble behind an MPLS stack, protocol / next-header of IPv4 / IPv6 / extension
+    headers) -/
+def selectorKeys (d : Bytes) (prev : Option (Nat × Nat)) (start : Nat) : List String :=
+  open Goflow.Spec.Frame in
+  let b (i : Nat) : Nat := (d.getD i 0).toNat
+  let et (v : Nat) : List String := ["etype" ++ toString v, "etype0x" ++ Producer.hex4 v]
+  match prev with
+  | none => []
+  | some (sv, pstart) =>
+    if sv = LS_Ethernet ∨ sv = LS_Dot1Q then et (b (start - 2) * 256 + b (start - 1))
+    else if sv = LS_GRE then et (b (pstart + 2) * 256 + b (pstart + 3))
+    else if sv = LS_MPLS then (if b start / 16 = 4 then et 0x0800 else if b start / 16 = 6 then et 0x86dd else [])
+    else if sv = LS_IPv4 then ["proto" ++ toString (b (pstart + 9))]
+    else if sv = LS_IPv6 then ["proto" ++ toString (b (pstart + 6))]
+    else if sv = LS_Route ∨ sv = LS_Frag then ["proto" ++ toString (b pstart)]
+    else []
+
+def selectorLayerNames : List String :=
+  ["etype0x0800", "etype2048", "etype0x86dd", "etype34525", "etype0x8100", "etype33024", "etype0x8847", "etype0x0000", "etype0",
+   "etype221", "etype0x00dd", "proto6", "proto17", "proto47", "proto4", "proto41", "proto58", "proto1", "proto44", "proto43"]
+
 def documentedLayerNames : List String :=
   ["ethernet", "2", "dot1q", "mpls", "ipv4", "ipv6", "ip", "3", "tcp", "udp", "4", "icmp", "icmpv6", "gre", "ipv6eh_routing", "ipv6eh_fragment"]
 
 /-- (keys, start offset in bytes, encapsulated) for every layer of a frame: a layer is encapsulated
     when it follows a GRE header or is an IP header directly inside another IP (or IPv6 extension) header -/
-def layerTable (layers : List (Nat × Nat × Nat)) : List (List String × Nat × Bool) :=
+def layerTable (layers : List (Nat × Nat × Nat)) (d : Bytes := []) : List (List String × Nat × Bool) :=
   open Goflow.Spec.Frame in
-  let rec go (ls : List (Nat × Nat × Nat)) (start : Nat) (enc : Bool) (prev : Option Nat) : List (List String × Nat × Bool) :=
+  let rec go (ls : List (Nat × Nat × Nat)) (start : Nat) (enc : Bool) (prev : Option Nat) (pstart : Nat := 0) : List (List String × Nat × Bool) :=
     match ls with
     | [] => []
     | (sv, size, _) :: rest =>
@@ -240,7 +263,8 @@ def layerTable (layers : List (Nat × Nat × Nat)) : List (List String × Nat ×
         | none => false
       let prevGre := prev = some LS_GRE
       let enc' := enc || prevGre || (isIP && prevIPish)
-      (layerKeys sv, start, enc') :: go rest (start + size) enc' (some sv)
+      (layerKeys sv ++ (if d.isEmpty then [] else selectorKeys d (prev.map fun p => (p, pstart)) start), start, enc') ::
+        go rest (start + size) enc' (some sv) start
   go layers 0 false none
 
 structure LayerMap where
@@ -259,7 +283,7 @@ def genLayerMaps (pb : List PbField) : G (List LayerMap) := do
     let dest ← if (← chance 5 6) ∧ !pb.isEmpty then (do pure (customDest (← pick pb))) else pick (existingDests.take 7)
     let length ← if isNumeric dest then pick ([1, 3, 4, 7, 8, 12, 16, 24, 32, 33, 48, 64].filter (· ≤ 8 * numericMax dest))
                  else pick [1, 8, 16, 32, 64, 100, 128]
-    out := out ++ [⟨← pick documentedLayerNames, ← chance 1 3, ← pick [0, 0, 4, 8, 9, 16, 32, 64, 72, 96, 128, 160, 200, 256], length, dest, ← pick ["", "big", "little"]⟩]
+    out := out ++ [⟨← (do if (← chance 1 4) then pick selectorLayerNames else pick documentedLayerNames), ← chance 1 3, ← pick [0, 0, 4, 8, 9, 16, 32, 64, 72, 96, 128, 160, 200, 256], length, dest, ← pick ["", "big", "little"]⟩]
   pure out
 
 open Goflow.Spec.Frame Goflow.Gen.Frame in
@@ -278,7 +302,7 @@ def genLayerRound (i : Nat) : G (List String) := do
       let f ← genFrame
       let d := bytes f
       let (_, layers) := facts f
-      let table := layerTable layers
+      let table := layerTable layers d
       let mut effects : List Effect := []
       for (keys, start, enc) in table do
         for key in keys do
